@@ -19,6 +19,7 @@ import (
 	"net/http/httptest"
 	"os"
 	"path/filepath"
+	"strconv"
 	"strings"
 	"sync"
 	"sync/atomic"
@@ -177,6 +178,8 @@ type c15Case struct {
 	Workers   [][]c15Req `json:"workers"`
 	Rounds    int        `json:"rounds"`
 	Registry   *c15RegSpec `json:"registry,omitempty"`
+	RealLLM    bool      `json:"real_llm"`  // runners are REAL llm.llmServer objects talking to a fake runner endpoint
+	Parallel   int       `json:"parallel"`  // OLLAMA_NUM_PARALLEL (requests one runner serves concurrently)
 	TimeoutMs  int       `json:"timeout_ms"`  // per request (default 3000)
 	DeadlineMs int       `json:"deadline_ms"` // per case: workers stop issuing requests after it (default 15000)
 }
@@ -190,6 +193,7 @@ type c15Resp struct {
 	T1     int64    `json:"t1"`
 	Models []string `json:"models,omitempty"` // for /api/ps
 	Err    string   `json:"err,omitempty"`
+	Integrity string `json:"integrity,omitempty"` // real_llm: did the request get exactly its own stream
 }
 
 type c15Life struct {
@@ -336,7 +340,10 @@ func c15Run(t *testing.T, c c15Case) c15Obs {
 	defer os.RemoveAll(dir)
 	t.Setenv("OLLAMA_MODELS", dir)
 	t.Setenv("OLLAMA_MAX_LOADED_MODELS", fmt.Sprint(c.MaxLoaded))
-	t.Setenv("OLLAMA_NUM_PARALLEL", "1")
+	if c.Parallel < 1 {
+		c.Parallel = 1
+	}
+	t.Setenv("OLLAMA_NUM_PARALLEL", fmt.Sprint(c.Parallel))
 	rec := &c15Buf{}
 	gin.SetMode(gin.TestMode)
 	gin.DefaultWriter = io.Discard
@@ -346,7 +353,17 @@ func c15Run(t *testing.T, c c15Case) c15Obs {
 	var mocks []*c15Mock
 	ctx, cancel := context.WithCancel(context.Background())
 	sched := InitScheduler(ctx)
+	var fakeRunner *httptest.Server
+	if c.RealLLM {
+		fakeRunner = httptest.NewServer(llm.VerifFakeRunner(time.Duration(c.CompUs) * time.Microsecond))
+		defer fakeRunner.Close()
+	}
 	sched.newServerFn = func(gpus discover.GpuInfoList, model string, f *ggml.GGML, adapters []string, projectors []string, opts api.Options, numParallel int) (llm.LlamaServer, error) {
+		if c.RealLLM {
+			_, portStr, _ := net.SplitHostPort(fakeRunner.Listener.Addr().String())
+			port, _ := strconv.Atoi(portStr)
+			return llm.VerifNewServer(port, numParallel, opts)
+		}
 		m := &c15Mock{model: model, created: c15Now(), loadD: time.Duration(c.LoadUs) * time.Microsecond, compD: time.Duration(c.CompUs) * time.Microsecond}
 		mu.Lock()
 		mocks = append(mocks, m)
@@ -454,6 +471,28 @@ func c15Run(t *testing.T, c c15Case) c15Obs {
 						}
 					} else if code >= 500 {
 						o.Err = string(b)
+					}
+					if c.RealLLM && code == 200 && r.Path == "/api/generate" {
+						var rq struct {
+							Prompt string `json:"prompt"`
+						}
+						var rs struct {
+							Response string `json:"response"`
+						}
+						json.Unmarshal(r.Body, &rq)
+						if rq.Prompt != "" {
+							if json.Unmarshal(b, &rs) != nil {
+								o.Integrity = "mismatch: response is not JSON: " + string(b[:min(len(b), 120)])
+							} else if want := llm.VerifExpected(rq.Prompt); rs.Response != want {
+								k := 0
+								for k < len(want) && k < len(rs.Response) && want[k] == rs.Response[k] {
+									k++
+								}
+								o.Integrity = fmt.Sprintf("mismatch: the response is not this request's stream: differs at byte %d of %d/%d", k, len(rs.Response), len(want))
+							} else {
+								o.Integrity = "ok"
+							}
+						}
 					}
 					respMu.Lock()
 					obs.Resps = append(obs.Resps, o)
